@@ -63,7 +63,7 @@ func buildHistPool(seed uint64, big bool) *histPool {
 	}
 	for _, e := range corpusFrames(max, true) {
 		hp.singles = append(hp.singles, add(e.Med, e.Accum))
-		if len(hp.singles) >= 22 {
+		if len(hp.singles) >= 16 {
 			break
 		}
 	}
@@ -84,6 +84,22 @@ func buildHistPool(seed uint64, big bool) *histPool {
 			continue
 		}
 		hp.singles = append(hp.singles, add(Medium{Records: rs}, acc))
+	}
+	// streams from the time / local-type / option generators (stateful decoding paths;
+	// some of them end in an error by construction)
+	c12, c13 := &propC12{}, &propC13{}
+	c12.Prepare(seed, "quick")
+	c13.Prepare(seed, "quick")
+	for i := 0; i < 8; i++ {
+		var sc *Scenario
+		if i%2 == 0 {
+			sc = c12.Gen(1000 + i)
+		} else {
+			sc = c13.Gen(1000 + i)
+		}
+		if sc != nil && len(sc.Media) > 0 && sc.Media[0].Records != nil {
+			hp.singles = append(hp.singles, add(Medium{Records: sc.Media[0].Records}, hasAccumSource(sc.Media[0].Records.Build())))
+		}
 	}
 	// state-sensitive probes (error streams included: their baseline is the same error)
 	for _, rs := range stateProbeStreams(NewRng(seed, "C08/stateprobe", 0)) {
@@ -126,9 +142,9 @@ func buildHistPool(seed uint64, big bool) *histPool {
 func (p *propC08) Prepare(seed uint64, tier string) int {
 	p.seed, p.tier = seed, tier
 	p.pool = buildHistPool(seed, isThorough(tier))
-	p.count = 1600
+	p.count = 4000
 	if isThorough(tier) {
-		p.count = 40000
+		p.count = 30000
 	}
 	return p.count
 }
